@@ -16,12 +16,12 @@ from .. import fdlib
 def check(ctx):
     build_harness()
     q = ctx.quick
-    params = dict(ReadSizes=[0, 1, 1024, 5000], ByteBudgets=[0, 1025], BlockBudgets=[1, 2, 3],
+    params = dict(ReadSizes=[0, 1, 100, 1024, 5000], ByteBudgets=[0, 1025], BlockBudgets=[1, 2, 3],
                   Offers=[0, 2, 3, 5, 6, 10, 12, 4000], Targets=[0, 1, 5000], Scripts=fdlib.SCRIPTS_Q,
                   SReadSizes=[0, 1, 1000, 5000], MaxSteps=4 if q else 6,
                   _expect_ops=["Reset", "Decode", "Collect", "Read", "CollectTo", "FromTo", "SRead"])
     if not q:
-        params.update(ReadSizes=[0, 1, 1023, 1024, 1025, 5000], ByteBudgets=[0, 1, 1024, 1025], BlockBudgets=[0, 1, 2, 3],
+        params.update(ReadSizes=[0, 1, 100, 1023, 1024, 1025, 5000], ByteBudgets=[0, 1, 1024, 1025], BlockBudgets=[0, 1, 2, 3],
                       Scripts=fdlib.SCRIPTS_T, Targets=[0, 1, 1024, 5000], SReadSizes=[0, 1, 1000, 1025, 5000])
     fdlib.run_config(ctx, "MC_FD_schedules", "quick", params, what="all schedules up to MaxSteps calls per frame, untruncated sources",
                      select=(lambda f: f["valid"]) if q else None)
